@@ -18,12 +18,12 @@ import (
 
 	"github.com/renbou/grpcbridge/bridgedesc"
 	"github.com/renbou/grpcbridge/grpcadapter"
-	"github.com/renbou/grpcbridge/internal/zzverif/vfake"
-	"github.com/renbou/grpcbridge/routing"
-	"github.com/renbou/grpcbridge/webbridge"
 	vc "github.com/renbou/grpcbridge/internal/zzverif/vcommon"
+	"github.com/renbou/grpcbridge/internal/zzverif/vfake"
 	"github.com/renbou/grpcbridge/internal/zzverif/vschema"
+	"github.com/renbou/grpcbridge/routing"
 	"github.com/renbou/grpcbridge/transcoding"
+	"github.com/renbou/grpcbridge/webbridge"
 	"google.golang.org/grpc/status"
 	"google.golang.org/protobuf/proto"
 	"google.golang.org/protobuf/reflect/protodesc"
@@ -56,8 +56,8 @@ type (
 
 var wktKinds = vschema.WktKinds
 
-func richSchema(pkg string) *Schema                  { return vschema.RichSchema(pkg) }
-func randomSchema(r *vc.Rand, pkg string) *Schema     { return vschema.RandomSchema(r, pkg) }
+func richSchema(pkg string) *Schema               { return vschema.RichSchema(pkg) }
+func randomSchema(r *vc.Rand, pkg string) *Schema { return vschema.RandomSchema(r, pkg) }
 
 // ---- message dump ----
 func scalarVal(fd protoreflect.FieldDescriptor, v protoreflect.Value) vc.Val {
@@ -338,9 +338,9 @@ func (n jnode) tree() vc.Val {
 	}
 }
 
-func num(s string) jnode  { return jnode{kind: 2, s: s} }
-func str(s string) jnode  { return jnode{kind: 3, s: s} }
-func jbool(b bool) jnode  { return jnode{kind: 1, b: b} }
+func num(s string) jnode   { return jnode{kind: 2, s: s} }
+func str(s string) jnode   { return jnode{kind: 3, s: s} }
+func jbool(b bool) jnode   { return jnode{kind: 1, b: b} }
 func arr(it []jnode) jnode { return jnode{kind: 4, items: it} }
 
 // canonical JSON value of a scalar kind (forms on which protojson and the field codec agree), sometimes an invalid one
